@@ -233,7 +233,12 @@ Fixpoint visible_ok (kn sp : fname) (total : N) (calls : list ocall)
             then visible_ok kn sp total r cnt synced true
             else (false, renamed)
           else visible_ok kn sp total r cnt synced renamed
-      | OOther _ => (false, renamed)
+      | OOther n =>
+          (* an open outside the vocabulary (not create-or-truncate): harmless on the directory
+             or on other names (what is written through it is seen by name, and others_same
+             compares the other entries); on the key or its spool file the access is unknown *)
+          if name_eqb n kn || name_eqb n sp then (false, renamed)
+          else visible_ok kn sp total r cnt synced renamed
       | _ => visible_ok kn sp total r cnt synced renamed
       end
   end.
